@@ -71,25 +71,41 @@ def PState.lexRead (s : PState) : Token × Option LexErr × PState :=
   | .tok t rest c => (t, none, { s with rest := rest, cur := c, pulls := s.pulls + 1 })
   | .err e => (invalidTok e, some e, { s with pulls := s.pulls + 1 })
 
+/-! The state updates of `peek`/`next`, one named function each. -/
+
+/-- `p.peekToken, p.peekError = p.lexer.ReadToken(); p.peeked = true` -/
+def PState.readPeek (s : PState) : PState :=
+  let r := s.lexRead
+  { r.2.2 with peeked := true, peekTok := r.1, peekErr := r.2.1 }
+
+/-- `p.tokenCount++; p.err = fmt.Errorf("exceeded token limit of %d", …)` -/
+def PState.trip (L : Nat) (s : PState) : PState :=
+  { s with tokenCount := s.tokenCount + 1, err := some (.limit L) }
+
+/-- `p.tokenCount++; p.peeked = false; p.prev, p.err = p.peekToken, p.peekError` -/
+def PState.takePeeked (s : PState) : PState :=
+  { s with tokenCount := s.tokenCount + 1, peeked := false, prev := s.peekTok, err := s.peekErr.map .lex }
+
+/-- `p.tokenCount++; p.prev, p.err = p.lexer.ReadToken()` -/
+def PState.readPrev (s : PState) : PState :=
+  let r := s.lexRead
+  { r.2.2 with tokenCount := s.tokenCount + 1, prev := r.1, err := r.2.1.map .lex }
+
+/-- `p.maxTokenLimit != 0 && p.tokenCount > p.maxTokenLimit` -/
+def overLimit (L tc : Nat) : Bool := L != 0 && decide (tc > L)
+
 /-- `peek` while `commentConsuming` is set -/
 def PState.peekNC (s : PState) : Token × PState :=
   if s.err.isSome then (s.prev, s)
   else if s.peeked then (s.peekTok, s)
-  else
-    match s.lexRead with
-    | (t, e, s') => (t, { s' with peeked := true, peekTok := t, peekErr := e })
+  else (s.readPeek.peekTok, s.readPeek)
 
 /-- `next` while `commentConsuming` is set -/
 def PState.nextNC (L : Nat) (s : PState) : Token × PState :=
   if s.err.isSome then (s.prev, s)
-  else
-    let s := { s with tokenCount := s.tokenCount + 1 }
-    if L ≠ 0 ∧ s.tokenCount > L then (s.prev, { s with err := some (.limit L) })
-    else if s.peeked then
-      (s.peekTok, { s with peeked := false, prev := s.peekTok, err := s.peekErr.map .lex })
-    else
-      match s.lexRead with
-      | (t, e, s') => (t, { s' with prev := t, err := e.map .lex })
+  else if overLimit L (s.tokenCount + 1) then (s.prev, s.trip L)
+  else if s.peeked then (s.peekTok, s.takePeeked)
+  else (s.readPrev.prev, s.readPrev)
 
 /-- the `for { consumeComment() }` loop of `consumeCommentGroup` -/
 def commentLoop (L : Nat) : Nat → PState → PState
@@ -97,10 +113,8 @@ def commentLoop (L : Nat) : Nat → PState → PState
   | n + 1, s =>
     if s.err.isSome then s            -- consumeComment: `if p.err != nil { return nil, false }`
     else
-      match s.peekNC with
-      | (tok, s1) =>
-        if tok.kind ≠ .comment then s1
-        else commentLoop L n (s1.nextNC L).2
+      let r := s.peekNC
+      if r.1.kind ≠ .comment then r.2 else commentLoop L n (r.2.nextNC L).2
 
 /-- `consumeCommentGroup` (called with `commentConsuming` clear).  Every comment consumed by the
     loop after the first was lexed from `rest`, so `rest.length + 3` units of fuel suffice
@@ -108,31 +122,28 @@ def commentLoop (L : Nat) : Nat → PState → PState
 def PState.consumeCommentGroup (L : Nat) (s : PState) : PState :=
   if s.err.isSome then s else commentLoop L (s.rest.length + 3) s
 
+/-- `if tok.Kind == lexer.Comment { p.consumeCommentGroup() }` -/
+def PState.groupIf (L : Nat) (t : Token) (s : PState) : PState :=
+  if t.kind = .comment then s.consumeCommentGroup L else s
+
 /-- `peek` -/
 def PState.peek (L : Nat) (s : PState) : Token × PState :=
   if s.err.isSome then (s.prev, s)
   else if s.peeked then (s.peekTok, s)
   else
-    match s.lexRead with
-    | (t, e, s1) =>
-      let s2 := { s1 with peeked := true, peekTok := t, peekErr := e }
-      let s3 := if t.kind = .comment then s2.consumeCommentGroup L else s2
-      (s3.peekTok, s3)
+    let s2 := s.readPeek
+    let s3 := s2.groupIf L s2.peekTok
+    (s3.peekTok, s3)
 
 /-- `next` -/
 def PState.next (L : Nat) (s : PState) : Token × PState :=
   if s.err.isSome then (s.prev, s)
+  else if overLimit L (s.tokenCount + 1) then (s.prev, s.trip L)
+  else if s.peeked then (s.peekTok, s.takePeeked)
   else
-    let s := { s with tokenCount := s.tokenCount + 1 }
-    if L ≠ 0 ∧ s.tokenCount > L then (s.prev, { s with err := some (.limit L) })
-    else if s.peeked then
-      (s.peekTok, { s with peeked := false, prev := s.peekTok, err := s.peekErr.map .lex })
-    else
-      match s.lexRead with
-      | (t, e, s1) =>
-        let s2 := { s1 with prev := t, err := e.map .lex }
-        let s3 := if t.kind = .comment then s2.consumeCommentGroup L else s2
-        (s3.prev, s3)
+    let s2 := s.readPrev
+    let s3 := s2.groupIf L s2.prev
+    (s3.prev, s3)
 
 /-- `p.error(tok, …)` with the message already formatted -/
 def PState.error (s : PState) (tok : Token) (msg : Bytes) : PState :=
